@@ -1438,7 +1438,7 @@ class ClientRequest(ClientRequestBase):
         if self.compress:
             writer.enable_compression(self.compress)
 
-        if self.chunked is not None:
+        if self.chunked:
             writer.enable_chunking()
         return writer
 
